@@ -20,51 +20,51 @@ def regName : Reg → String
 
 /-- config.rs: enum Temporary { Register(Register), Spill(Spill) } -/
 inductive Temporary where
-  | reg (r : Reg)
+  | reg (r : Nat)
   | spill (p : Nat)
   deriving DecidableEq, Repr, BEq, Inhabited
 
 /-- code.rs: enum Code (same constructor names and argument order as the Rust enum) -/
 inductive Code where
-  | ADD (r r1 : Reg)
-  | ADDRM (r r1 : Reg) (i : Int)
-  | ADDMR (r1 : Reg) (i : Int) (r : Reg)
-  | ADDI (r : Reg) (i : Int)
-  | ADDIM (r : Reg) (i1 i2 : Int)
-  | SUB (r r1 : Reg)
-  | SUBRM (r r1 : Reg) (i : Int)
-  | SUBMR (r1 : Reg) (i : Int) (r : Reg)
-  | SUBI (r : Reg) (i : Int)
-  | IMUL (r r1 : Reg)
-  | IMULRM (r r1 : Reg) (i : Int)
-  | IMULMR (r1 : Reg) (i : Int) (r : Reg)
-  | IDIV (r : Reg)
-  | IDIVM (r : Reg) (i : Int)
+  | ADD (r r1 : Nat)
+  | ADDRM (r r1 : Nat) (i : Int)
+  | ADDMR (r1 : Nat) (i : Int) (r : Nat)
+  | ADDI (r : Nat) (i : Int)
+  | ADDIM (r : Nat) (i1 i2 : Int)
+  | SUB (r r1 : Nat)
+  | SUBRM (r r1 : Nat) (i : Int)
+  | SUBMR (r1 : Nat) (i : Int) (r : Nat)
+  | SUBI (r : Nat) (i : Int)
+  | IMUL (r r1 : Nat)
+  | IMULRM (r r1 : Nat) (i : Int)
+  | IMULMR (r1 : Nat) (i : Int) (r : Nat)
+  | IDIV (r : Nat)
+  | IDIVM (r : Nat) (i : Int)
   | CQO
-  | JMP (r : Reg)
+  | JMP (r : Nat)
   | JMPL (l : String)
   | JMPLN (l : String)
-  | LEAL (r : Reg) (l : String)
-  | MOV (r r1 : Reg)
+  | LEAL (r : Nat) (l : String)
+  | MOV (r r1 : Nat)
   /-- `mov [r1 + i], r` (store) -/
-  | MOVS (r r1 : Reg) (i : Int)
+  | MOVS (r r1 : Nat) (i : Int)
   /-- `mov r, [r1 + i]` (load) -/
-  | MOVL (r r1 : Reg) (i : Int)
-  | MOVI (r : Reg) (i : Int)
-  | MOVIM (r : Reg) (i1 i2 : Int)
-  | CMP (r r1 : Reg)
-  | CMPRM (r r1 : Reg) (i : Int)
-  | CMPMR (r : Reg) (i : Int) (r1 : Reg)
-  | CMPI (r : Reg) (i : Int)
-  | CMPIM (r : Reg) (i1 i2 : Int)
+  | MOVL (r r1 : Nat) (i : Int)
+  | MOVI (r : Nat) (i : Int)
+  | MOVIM (r : Nat) (i1 i2 : Int)
+  | CMP (r r1 : Nat)
+  | CMPRM (r r1 : Nat) (i : Int)
+  | CMPMR (r : Nat) (i : Int) (r1 : Nat)
+  | CMPI (r : Nat) (i : Int)
+  | CMPIM (r : Nat) (i1 i2 : Int)
   | JEL (l : String)
   | JNEL (l : String)
   | JLL (l : String)
   | JLEL (l : String)
   | JGL (l : String)
   | JGEL (l : String)
-  | PUSH (r : Reg)
-  | POP (r : Reg)
+  | PUSH (r : Nat)
+  | POP (r : Nat)
   | CALL (f : String)
   | RET
   | LAB (l : String)
@@ -74,6 +74,12 @@ inductive Code where
   | EXTERN (f : String)
   | COMMENT (msg : String)
   deriving DecidableEq, Repr, Inhabited
+
+/-- `i32::try_from(val).is_ok()` on an `i64` value (code.rs load_immediate); also the range of every
+immediate / displacement field except the one of `mov r64, imm64` (Machine.lean). -/
+def fitsI32 (i : Int) : Bool := decide (-2147483648 ≤ i) && decide (i ≤ 2147483647)
+/-- the range of `i64` (`Immediate.val`) = the immediate field of `mov r64, imm64` -/
+def fitsI64 (i : Int) : Bool := decide (-9223372036854775808 ≤ i) && decide (i ≤ 9223372036854775807)
 
 /-- config.rs: impl Print for Immediate (`format!("{}", val)`) -/
 def immStr (i : Int) : String := toString i
